@@ -371,6 +371,18 @@ func (c *c20) Run(cs core.Case) core.Result {
 		if p.Fmt == "par2" {
 			expect("create-invalid-slice-size", runPar(cwd, "c", "-s", "5", spell("s"+ext), spell(w.dataRel[0])), "other-failure")
 		}
+		// an input listed twice (overlapping shell globs): either refused, or a
+		// set that verifies
+		{
+			dupIdx := spell("dup" + ext)
+			dr := runPar(cwd, "c", "-c", "2", dupIdx, spell(w.dataRel[0]), spell(w.dataRel[len(w.dataRel)-1]), spell(w.dataRel[0]))
+			if dr.exit == 0 && dr.signal == "" {
+				expect("create-repeated-input", dr, "0")
+				expect("verify-after-create-with-repeated-input", runPar(cwd, "v", dupIdx), "0")
+			} else {
+				expect("create-repeated-input", dr, "other-failure")
+			}
+		}
 		// a directory squats on the first volume's name
 		squat := "q.vol00+01.par2"
 		if p.Fmt == "par1" {
